@@ -486,6 +486,26 @@ def _values_of(fn: ast.AST, e: ast.AST) -> list[ast.AST]:
     return [e]
 
 
+def _values_at(al: "guards.Aliases", e: ast.AST, at: Node | None, depth: int = 0) -> list[ast.AST]:
+    """the expression itself, or - for a local name - the values that the bindings of it which REACH the CFG node `at`
+    give it (aliases written out; both arms of a conditional expression).  Flow-sensitive on purpose: a name that holds
+    the static successor before the loop and is bound again by the loop over .dynamic stands for the dynamic successor
+    inside that loop, whatever else it was called on to hold earlier in the same activation."""
+    if not isinstance(e, ast.Name) or at is None or depth > 4:
+        return [e]
+    out: list[ast.AST] = []
+    for d in al.rd.reaching(at, e.id):
+        if d.kind not in ("assign", "walrus") or d.index is not None or d.value is None:
+            continue  # loop target, unpacking, parameter, augmented: not a value this function can name
+        arms: list[ast.AST] = [d.value]
+        while any(isinstance(a, ast.IfExp) for a in arms):
+            arms = [b for a in arms for b in ((a.body, a.orelse) if isinstance(a, ast.IfExp) else (a,))]
+        for a in arms:
+            a = al.expand(a, d.node) if d.node is not None else a
+            out += _values_at(al, a, d.node, depth + 1) if isinstance(a, ast.Name) else [a]
+    return out or [e]
+
+
 def _bound_name(call: ast.Call) -> tuple[str | None, ast.AST | None]:
     """(the local the call's result is bound to - directly, or as an arm of a conditional expression -, the construct
     that consumes the result when it is not a binding)."""
@@ -562,7 +582,7 @@ def _r31_order_generator(ctx: Ctx, m: _Matcher, first: str) -> bool:
         static_y = []
         for y in yields:
             st = state_of(y)
-            for v in (_values_of(G, st) if st is not None else []):
+            for v in (_values_at(gal, st, gcfg.node_of(y)) if st is not None else []):
                 k = _sub_of_attr(v, "static")
                 if k is not None and not (isinstance(k, ast.Constant) and k.value == ""):
                     static_y.append(y)
@@ -639,7 +659,7 @@ def _r31_order(ctx: Ctx, m: _Matcher) -> None:
         a0 = astq.arg_or_kw(c, 0, first)  # the state the search continues in, given by position or by keyword
         if a0 is None:
             continue
-        for v in _values_of(fn, a0):
+        for v in _values_at(al, a0, cfg.node_of(c)):  # what the name holds AT this call, not anywhere in the function
             s = _sub_of_attr(v, "static")
             if s is not None and not (isinstance(s, ast.Constant) and s.value == ""):
                 static_calls.append(c)
